@@ -184,7 +184,10 @@ def run_case(ctx, rng, c, workdir):
     ctx.feature('expect_' + exp)
 
     g = carts.make_game(regions, code=code, version=version)
-    dest = os.path.join(workdir, 'cart%d.p8.png' % ctx.evaluations)
+    # the same destination path is reused for the whole shard: a write must take its label from what is at the path NOW
+    dest = os.path.join(workdir, 'cart.p8.png')
+    if os.path.exists(dest):
+        os.remove(dest)
     label_rows = blank_label_rows()
     before = None
     if dest_exists:
